@@ -67,6 +67,20 @@ __CPROVER_assigns()
 __CPROVER_ensures(RET == NULL)
 ;
 
+
+/* memchr over a piece of the DOCUMENT (ASSUMED, libc; same specification as the memchr contract of contracts/byte_buf.h:
+ * first occurrence, Skolem position g_mm, universal part for the witness g_j).  The result is expressed relative to the
+ * document object g_doc, not to s: inside a loop s derives from a havocked pointer that has no value set in CBMC, and a
+ * dereference of the result would then be resolved against every object of the program (SAT conversion runs out of
+ * memory). */
+void *xmlc_memchr(const void *s, int c, size_t n)
+__CPROVER_requires(SAME(s, g_doc) && POFF(s) <= g_doc_len && n <= g_doc_len - POFF(s))
+__CPROVER_assigns(g_mm)
+__CPROVER_ensures(RET == NULL ==> (g_j < n ==> U8P(s)[g_j] != (uint8_t)c))
+__CPROVER_ensures(RET != NULL ==> g_mm < n && PEQ(RET, (void *)(g_doc + (POFF(s) + g_mm))) && g_doc[POFF(s) + g_mm] == (uint8_t)c &&
+                  (g_j < g_mm ==> g_doc[POFF(s) + g_j] != (uint8_t)c))
+;
+
 /* aws_byte_cursor_find_exact as its callers in xml_parser.c see it (position-wise; content for one witness byte).
  * On success first_find is the REST of the input starting at the match (not just the match). */
 int xmlc_find_exact(
@@ -168,7 +182,9 @@ __CPROVER_ensures(list->length == (OLD(list->length) > 0 ? OLD(list->length) - 1
     __CPROVER_requires(ENF(f) ==> g_name_off <= g_doc_len && AT_OFF((node)->name.ptr, g_name_off))                      \
     __CPROVER_requires(IN_DOC((node)->name))                                                                            \
     __CPROVER_requires((node)->parser->error == 0)
-#define XML_SCRATCH_FRAME(p)
+#define XML_SCRATCH_FRAME(p)                                                                                           \
+    __CPROVER_assigns(__CPROVER_object_upto((uint8_t *)(p)->attributes, sizeof((p)->attributes)))                       \
+    __CPROVER_assigns(__CPROVER_object_upto((uint8_t *)(p)->split_scratch, sizeof((p)->split_scratch)))
 
 /* ------------------------------------------------------------------ what a user callback may do (DESIGN 4.6) - ASSUMED for
  * user code, and checked against a sample callback that takes every legal action (unit xml_callback_model):
